@@ -127,3 +127,9 @@ def run(eng, tier):
         'not_decided': ['that rust_decimal evaluates the 28-digit pro-rata quotient to the exact unit (numeric precision)', 'chain rollback (assumed)'],
         'assumptions': ['I1-I7 on loaded records (inductive hypothesis); base/convertible/quote denominations kept apart by equality facts only (sums are per denomination class, so coinciding denominations still balance)'],
     }
+
+import probes as _pb
+PROBES = [
+    _pb.drop_message('execute', 'CancelBid', -1),
+    _pb.drop_write('execute', 'ExecuteMatch', 'ask'),
+]
